@@ -216,6 +216,44 @@ def h_step_forward_tsn(ctx, layout):
         ctx.observe("got", got["r"])
 
 
+def h_step_forward_held(ctx, held):
+    """Receiver, ordered PR stream: message s0 is lost and abandoned, `held` later messages were
+    received and are waiting behind it when the FORWARD-TSN arrives; afterwards the sender's next
+    two messages arrive in swapped order.  Whatever is delivered must be in sending order."""
+    origin = ctx.int("origin", 0, U32)
+    s0 = ctx.int("ssn_origin", 0, 0xFFFF)
+    with Env(crc=_crc()) as env:
+        b = env.transport("controlled", established=True, local_tsn=500, remote_tsn=origin)
+        pb = env.channel(b, id=3, maxRetransmits=0)
+        b._get_inbound_stream(3).sequence_number = s0
+        got = []
+        pb.on("message", lambda m: got.append(m))
+
+        def mk(k):
+            c = DataChunk(flags=L_B | L_E)
+            c.tsn, c.stream_id, c.stream_seq, c.protocol, c.user_data = (origin + k) & U32, 3, (s0 + k) & 0xFFFF, 53, bytes([65 + k])
+            return c
+
+        for k in range(1, held + 1):  # message 0 never arrives
+            sx.run(b._receive_data_chunk(mk(k)))
+        env.drain()
+        ctx.check(got == [], "nothing-delivered-behind-a-missing-ordered-message")
+        fwd = ForwardTsnChunk()
+        fwd.cumulative_tsn = (origin + held) & U32
+        fwd.streams = [(3, (s0 + held) & 0xFFFF)]
+        sx.run(b._receive_forward_tsn_chunk(fwd))
+        env.drain()
+        ctx.reach("forward-tsn-over-held-processed")
+        ctx.check(sx.eq(b._get_inbound_stream(3).sequence_number, (s0 + held + 1) & 0xFFFF), "expected-sequence-number-follows-the-forward-tsn")
+        for k in (held + 2, held + 1):  # the next two messages, swapped
+            sx.run(b._receive_data_chunk(mk(k)))
+            env.drain()
+        order = [m[0] - 65 for m in got]
+        ctx.check(order == sorted(order) and len(set(order)) == len(order), "delivered-in-sending-order-without-duplicates", repr(order))
+        ctx.check(order[-2:] == [held + 1, held + 2], "messages-after-the-forward-point-are-delivered", repr(order))
+        ctx.observe("order", order)
+
+
 def h_step_abandon(ctx, nfrag, nsent, pos):
     """Sender: when a message is abandoned all of its fragments - sent and still queued - go."""
     with Env(crc=_crc()) as env, Patch(sctp, USERDATA_MAX_LENGTH=FRAG):
@@ -320,5 +358,6 @@ STUBS = [
 HARNESSES = {
     "bmc": Harness("bmc", h_bmc, _bmc_jobs, style="BMC", bounds="2 channels (reliable ordered + partially reliable: maxRetransmits 0/1 or lifetime, ordered/unordered); <=3 messages of <=2 (3) fragments; cwnd of 1, 2 or 8 fragments; 3 (quick) / 4 solver-chosen events; then a loss-free suffix and one fresh message per channel", encoded=ENC, stubs=STUBS, twin="suffix-done", opts={"samples": 1}),
     "step-forward-tsn": Harness("step-forward-tsn", h_step_forward_tsn, _fwd_layouts, style="STEP", bounds="4 (quick) / 6 interleavings of reliable and abandoned PR fragments over consecutive TSNs with symbolic origin; which reliable fragments arrived before the FORWARD-TSN is solver-chosen", encoded=ENC, stubs=STUBS, twin="forward-tsn-processed"),
+    "step-forward-held": Harness("step-forward-held", h_step_forward_held, lambda tier: [{"held": h} for h in ((0, 1) if tier == "quick" else (0, 1, 2))], style="STEP", bounds="ordered PR stream at a symbolic 16-bit sequence origin and 32-bit TSN origin: one lost message, 0..1 (quick) / 0..2 received messages held behind it, FORWARD-TSN over all of them, then the next two messages in swapped order", encoded=ENC, stubs=STUBS, twin="forward-tsn-over-held-processed", opts={"samples": 1}),
     "step-abandon": Harness("step-abandon", h_step_abandon, lambda tier: [{"nfrag": n, "nsent": s, "pos": 0} for n in (2, 3) for s in range(1, n + 1)], style="STEP", bounds="PR message of 2..3 fragments of which 1..n are in flight when T3 abandons it; TSN origin symbolic", encoded=ENC, stubs=STUBS, twin="abandoned"),
 }
